@@ -10,6 +10,12 @@
 //!     compact serialization of the whole token — must fail. Thorough adds every byte substitution from a
 //!     47+-character alphabet (EdDSA tokens) and the same sweep through `CoreDocument::verify_jws`.
 //! (c) the concrete verifiers called directly: alg x key shape x signature shape table.
+//! (d) payload sources {embedded only, detached only} are the attached/detached dimension of (a),(b); here BOTH (the
+//!     token carries a non-empty payload Pe and the caller supplies a detached payload Pd, signature valid over h.Pd or
+//!     over h.Pe) and NEITHER, for the three serializations and CoreDocument::verify_jws. BOTH with Pd != Pe must never
+//!     be reported verified (one of the two received payloads would not be bound by the signature); Pd == Pe and
+//!     NEITHER are recorded only. (b) additionally re-submits every verifying detached-payload baseline token with an
+//!     embedded payload added.
 //!
 //! Oracle: safety direction strict on every row (reported verified ⇒ the verifier was called exactly once with
 //! the received bytes / protected alg / received signature / caller's key and said Ok, key.alg ∈ {absent, alg},
@@ -153,8 +159,41 @@ impl Asm {
 /// Assemble the token of `t`. `other_signer`: signatures are made with key #1 instead of the caller's key #0.
 /// `kid`: put this kid into the protected header (document part). None if the row is not expressible.
 fn build(t: &Tok, other_signer: bool, kid: Option<&str>) -> Option<Built> {
+  build_ov(t, other_signer, kid, None)
+}
+
+/// Payload `idx` of the menu as it is sent under b64 mode `b64m`.
+fn sent_of(b64m: u8, idx: u8) -> Vec<u8> {
+  let raw = PAYLOADS[idx as usize];
+  if b64m == 2 {
+    raw.to_vec()
+  } else {
+    b64(raw).into_bytes()
+  }
+}
+
+/// Payload-source override: what the token carries, what the caller supplies, what the signature covers
+/// (all as-sent bytes).
+struct Ov {
+  embed: Option<Vec<u8>>,
+  detached: Option<Vec<u8>>,
+  signed: Vec<u8>,
+}
+
+fn build_ov(t: &Tok, other_signer: bool, kid: Option<&str>, ov: Option<&Ov>) -> Option<Built> {
   let raw = PAYLOADS[t.pl as usize];
-  let sent: Vec<u8> = if t.b64 == 2 { raw.to_vec() } else { b64(raw).into_bytes() };
+  let sent: Vec<u8> = match ov {
+    Some(o) => o.signed.clone(),
+    None => sent_of(t.b64, t.pl),
+  };
+  let embed: Option<Vec<u8>> = match ov {
+    Some(o) => o.embed.clone(),
+    None => (!t.det).then(|| sent.clone()),
+  };
+  let detached: Option<Vec<u8>> = match ov {
+    Some(o) => o.detached.clone(),
+    None => t.det.then(|| sent.clone()),
+  };
   let json_ser = t.ser != 0;
   if !json_ser && t.ap >= 2 {
     return None; // no unprotected header in the compact serialization
@@ -165,9 +204,9 @@ fn build(t: &Tok, other_signer: bool, kid: Option<&str>) -> Option<Built> {
   // payload as it appears inside a JSON string
   let mut clean = t.ap == 0;
   let mut json_payload: Option<String> = None;
-  if !t.det {
+  if let Some(sent) = &embed {
     if json_ser {
-      let s = std::str::from_utf8(&sent).ok()?;
+      let s = std::str::from_utf8(sent).ok()?;
       let quoted = serde_json::to_string(s).unwrap();
       let inner = &quoted[1..quoted.len() - 1];
       if inner != s {
@@ -213,8 +252,8 @@ fn build(t: &Tok, other_signer: bool, kid: Option<&str>) -> Option<Built> {
     let p = &pre[0];
     let pr = a.region(p.seg.as_ref().unwrap().as_bytes());
     a.s(".");
-    if !t.det {
-      payload_region = Some(a.region(&sent));
+    if let Some(e) = &embed {
+      payload_region = Some(a.region(e));
     }
     a.s(".");
     let sr = a.region(b64(&p.sig).as_bytes());
@@ -260,7 +299,7 @@ fn build(t: &Tok, other_signer: bool, kid: Option<&str>) -> Option<Built> {
     }
     a.s("}");
   }
-  Some(Built { token: a.buf, detached: t.det.then(|| sent.clone()), sigs, claims: raw.to_vec(), payload_region, clean })
+  Some(Built { token: a.buf, detached, sigs, claims: raw.to_vec(), payload_region, clean: clean && ov.is_none() })
 }
 
 // ------------------------------------------------------------------ recording verifier
@@ -298,6 +337,9 @@ enum Case {
   Doc { t: Tok, pin_other: bool, m: Option<(u8, u32, u8, u8)> },
   /// (c) concrete verifier table
   Ver { alg: u8, key: u8, sig: u8 },
+  /// (d) payload sources. `t.pl` = Pe. src 2: BOTH (token carries Pe, caller supplies Pd); 3: NEITHER.
+  /// over 0: signature over h.Pd; 1: over h.Pe. doc: through CoreDocument::verify_jws (compact).
+  Src { t: Tok, src: u8, pd: u8, over: u8, doc: bool },
 }
 const REGION: [&str; 5] = ["compact-token", "protected-segment", "payload", "signature-segment", "detached-payload"];
 
@@ -628,6 +670,15 @@ fn sweep(ctx: &Ctx, acc: &mut Acc, t: &Tok, subst: bool) -> u64 {
       }
     }
   }
+  // attack shape: a verifying detached-payload token re-submitted with a non-empty embedded payload added
+  if t.det {
+    for pe in 0..PAYLOADS.len() as u8 {
+      let c = Case::Src { t: Tok { pl: pe, det: false, ..t.clone() }, src: 2, pd: t.pl, over: 0, doc: false };
+      if let Case::Src { t: tt, .. } = &c {
+        eval_src(ctx, acc, &c, tt, 2, t.pl, 0, false);
+      }
+    }
+  }
   acc.evals - before + 1
 }
 
@@ -695,6 +746,73 @@ fn eval_doc(ctx: &Ctx, acc: &mut Acc, case: &Case, t: &Tok, pin_other: bool, m: 
       }
     }
   }
+}
+
+// ------------------------------------------------------------------ (d) payload sources
+fn eval_src(ctx: &Ctx, acc: &mut Acc, case: &Case, t: &Tok, src: u8, pd: u8, over: u8, doc: bool) {
+  acc.evals += 1;
+  let pe_sent = sent_of(t.b64, t.pl);
+  let pd_sent = sent_of(t.b64, pd);
+  let ov = if src == 2 {
+    Ov { embed: Some(pe_sent.clone()), detached: Some(pd_sent.clone()), signed: if over == 0 { pd_sent.clone() } else { pe_sent.clone() } }
+  } else {
+    Ov { embed: None, detached: None, signed: pe_sent.clone() }
+  };
+  let kid = kid_of(t.alg);
+  let Some(b) = build_ov(t, false, doc.then_some(kid.as_str()), Some(&ov)) else {
+    acc.out("src:row-not-expressible");
+    return;
+  };
+  let ep: String = if doc { "CoreDocument::verify_jws".into() } else { SER[t.ser as usize].into() };
+  // per signature: verified or the reason it was not
+  let res: Result<Vec<Result<(), String>>, vx::Panicked> = if doc {
+    let Ok(jws) = std::str::from_utf8(&b.token) else {
+      acc.out("src:token-not-a-str(not-expressible-through-this-api)");
+      return;
+    };
+    guard(|| {
+      vec![DOCS[0]
+        .verify_jws(jws, b.detached.as_deref(), &RealVerifier, &JwsVerificationOptions::default())
+        .map(|_| ())
+        .map_err(|e| format!("{e}").chars().take(40).collect::<String>())]
+    })
+  } else {
+    guard(|| match real_verify(t, &b, &b.token, b.detached.as_deref()) {
+      Err(l) => vec![Err(l)],
+      Ok(items) => items.into_iter().map(|r| r.map(|_| ())).collect(),
+    })
+  };
+  let class = match (src, pd_sent == pe_sent) {
+    (2, false) => "both:pd!=pe",
+    (2, true) => "both:pd==pe(open)",
+    _ => "neither(open)",
+  };
+  let over_s = if over == 0 { "sig-over-detached" } else { "sig-over-embedded" };
+  match res {
+    Err(p) => ctx.violation(&format!("{ep}|{}", p.key()), &p.msg, case),
+    Ok(items) => {
+      for r in items {
+        match r {
+          Ok(()) => {
+            acc.out(format!("src:{class}:{over_s}:VERIFIED"));
+            if src == 2 && pd_sent != pe_sent {
+              ctx.violation(
+                &format!("{ep}|both-payload-sources|verified"),
+                &format!(
+                  "token carries payload {:?}, caller supplied detached payload {:?}, {over_s}: reported verified although one of the two received payloads is not covered by the signature",
+                  String::from_utf8_lossy(&pe_sent),
+                  String::from_utf8_lossy(&pd_sent)
+                ),
+                case,
+              );
+            }
+          }
+          Err(l) => acc.out(format!("src:{class}:{over_s}:not-verified:{l}")),
+        }
+      }
+    }
+  }
+  acc.distinct.push(Ctx::hash_of(&(5u8, t, src, pd, over, doc)));
 }
 
 // ------------------------------------------------------------------ (c) verifier table
@@ -872,6 +990,7 @@ fn eval_into(ctx: &Ctx, acc: &mut Acc, case: &Case) {
     }
     Case::Doc { t, pin_other, m } => eval_doc(ctx, acc, case, t, *pin_other, *m),
     Case::Ver { alg, key, sig } => eval_ver(ctx, acc, case, *alg, *key, *sig),
+    Case::Src { t, src, pd, over, doc } => eval_src(ctx, acc, case, t, *src, *pd, *over, *doc),
   }
 }
 fn eval(ctx: &Ctx, case: &Case) {
@@ -909,7 +1028,7 @@ fn account(ctx: &Ctx, name: &str, n: u64, mut detail: serde_json::Value) {
 }
 
 fn generate(ctx: &Ctx) {
-  ctx.rule("(a) full product of the token construction table, each token assembled and signed by the harness, decoded and verified with a recording verifier; (b) every single-bit flip (thorough: + byte substitutions) of every byte of the protected segment / payload / signature segment (compact: whole token) of every baseline token, executed with the real verifiers, also through CoreDocument::verify_jws; (c) alg x key x signature table on the concrete verifiers. distinct_nontrivial = distinct construction rows that verified or lie outside the baseline family, distinct baseline tokens swept, distinct verifier-table rows");
+  ctx.rule("(a) full product of the token construction table, each token assembled and signed by the harness, decoded and verified with a recording verifier; (b) every single-bit flip (thorough: + byte substitutions) of every byte of the protected segment / payload / signature segment (compact: whole token) of every baseline token, executed with the real verifiers, also through CoreDocument::verify_jws; (c) alg x key x signature table on the concrete verifiers; (d) payload-source product alg x serialization x b64 x spelling x Pe x Pd x {signature over h.Pd, over h.Pe} with both an embedded and a detached payload, plus NEITHER, also through verify_jws. distinct_nontrivial = distinct construction rows that verified or lie outside the baseline family, distinct baseline tokens swept, distinct verifier-table rows");
   ctx.assume("fixed-seed keys; p256/k256/iota-crypto signing in the harness is trusted to produce genuine signatures; a changed signing input or signature verifying by chance is ignored (2^-128)");
   let all = [0u8, 1, 2, 3, 4, 5];
   // ---- (a)
@@ -1007,6 +1126,43 @@ fn generate(ctx: &Ctx) {
     acc.flush(ctx);
   });
   account(ctx, "(b') CoreDocument::verify_jws baseline + single-bit flips", cases.len() as u64, json!({"engine":"E1 full product","rows": cases.len()}));
+
+  // ---- (d) payload sources
+  let mut cases = Vec::new();
+  let n = PAYLOADS.len() as u8;
+  for alg in 0..3u8 {
+    for ser in 0..4u8 {
+      for b64m in 0..3u8 {
+        for sp in 0..4u8 {
+          for pe in 0..n {
+            let t = Tok { ser, det: false, b64: b64m, pl: pe, sp, ap: 0, alg };
+            for pd in 0..n {
+              for over in 0..2u8 {
+                cases.push(Case::Src { t: t.clone(), src: 2, pd, over, doc: false });
+                if ser == 0 {
+                  cases.push(Case::Src { t: t.clone(), src: 2, pd, over, doc: true });
+                }
+              }
+            }
+            cases.push(Case::Src { t: t.clone(), src: 3, pd: pe, over: 1, doc: false });
+            if ser == 0 {
+              cases.push(Case::Src { t: t.clone(), src: 3, pd: pe, over: 1, doc: true });
+            }
+          }
+        }
+      }
+    }
+  }
+  ctx.sample("payload sources", &cases[1]);
+  ctx.sample("payload sources", &cases[cases.len() / 2]);
+  cases.par_chunks(128).for_each(|chunk| {
+    let mut acc = Acc::default();
+    for c in chunk {
+      eval_into(ctx, &mut acc, c);
+    }
+    acc.flush(ctx);
+  });
+  account(ctx, "(d) payload sources: BOTH (embedded Pe + detached Pd, signature over either) and NEITHER, all serializations + verify_jws", cases.len() as u64, json!({"engine":"E1 full product","rows": cases.len()}));
 
   // ---- (c)
   let mut cases = Vec::new();
